@@ -376,6 +376,47 @@ def _derives_from(defs, sieve, base):
     return False
 
 
+def _domain_by_meaning(ctx, closure, defs, f, base, others=()):
+    from ..condeval import outcomes, ev, Unknown
+    from .common import dead_edge_labels
+    consts = {}
+    for name, node in defs.items():
+        try:
+            v = ev(node, dict(consts))
+            hash(v)
+            consts[name] = v
+        except (Unknown, TypeError, AttributeError, KeyError, IndexError):
+            continue
+    dom = consts.get(base)
+    if not isinstance(dom, tuple) or not dom:
+        return False
+    bogus, good = ("\x00no-such-value",), (dom[0],)
+    for fi in closure:
+        g = ctx.an.cfg(fi)
+        if not any(isinstance(x, ast.Attribute) and x.attr == f for x in ast.walk(fi.node)):
+            continue
+        cache = {}
+
+        def ao(t, g=g, cache=cache):
+            if t.id not in cache:
+                cache[t.id] = dead_edge_labels(g, t, [g.exit])
+            return cache[t.id]
+        res = []
+        for val in (bogus, good):
+            env = dict(consts)
+            for of, ob in others:
+                if isinstance(consts.get(ob), tuple):
+                    env["other." + of] = consts[ob]
+            env["other." + f] = val
+            env["__index__"] = ctx.index
+            env["__an__"] = ctx.an
+            out, both = outcomes(g, fi.node, env, ao)
+            res.append({x for x, t in out})
+        if res[0] == {"raise"} and ("raise", False) not in {(x, False) for x in res[1] if x == "raise"} and "pass" in res[1]:
+            return True
+    return False
+
+
 def rule_domain(ctx):
     R = "C19.DOMAIN"
     cls = ctx.index.cls(HS)
@@ -425,6 +466,9 @@ def rule_domain(ctx):
                     break
             sieves.setdefault(fld, []).append((sv, fi, st, gated))
     n_list_fields = 0
+    list_defaults = [(f_, dv_.args[0].id) for f_, (dv_, _a, _b) in fields.items()
+                     if isinstance(dv_, ast.Call) and isinstance(dv_.func, ast.Name) and dv_.func.id == "list"
+                     and dv_.args and isinstance(dv_.args[0], ast.Name)]
     for f, (dv, dfi, dst) in sorted(fields.items()):
         if not (isinstance(dv, ast.Call) and isinstance(dv.func, ast.Name) and dv.func.id == "list"
                 and dv.args and isinstance(dv.args[0], ast.Name)):
@@ -433,6 +477,12 @@ def rule_domain(ctx):
         n_list_fields += 1
         cands = sieves.get(f, [])
         if not cands:
+            # not written as a direct `not_matching(other.f, SIEVE)`: decide it by meaning - some function
+            # of validate()'s closure must end in ValueError for a value outside the domain and must not for
+            # one inside it (finite-domain walk with the module's constant lists bound; helpers followed)
+            if _domain_by_meaning(ctx, closure, defs, f, base, list_defaults):
+                ctx.ok(R, "other.%s refused outside %s (decided by evaluating the checks)" % (f, base), dfi.loc(dst))
+                continue
             ctx.fail(R, HS + ".validate", "domain check of other.%s" % f,
                      "list setting '%s' (default list(%s)) is never checked against its domain" % (f, base),
                      dfi.loc(dst))
